@@ -28,6 +28,10 @@ pub const TYPES: &[&str] = &[
     "m.room.membe",
     "m.room.member2",
     "",
+    // near-misses of the specially redacted types: the bare suffix, case, blanks, other prefixes (seed4 C04-1)
+    "member", "create", "join_rules", "power_levels", "history_visibility", "redaction", "aliases",
+    "room.member", "M.ROOM.MEMBER", "m.room.", "m.room", " m.room.member", "m.room.member ", "x.m.room.member",
+    "m.room.member.", "m.room.create.x",
 ];
 
 const TOP_KEYS: &[&str] = &[
